@@ -69,6 +69,7 @@ def run(ctx):
     starts = [base[rng.randrange(len(base))] for _ in range(nwalk)]
     rc, so, se = C.driver(["randfens", str(ctx["seed"] + 5), "40"], "\n".join(starts) + "\n")
     fens = list(dict.fromkeys(base + [l for l in so.splitlines() if l and l != "PANIC"]))
+
     allf, owner, label = [], [], []
     for i, fen in enumerate(fens):
         b, ps = perturbations(fen, rng, 24 if ctx["tier"] == "quick" else 200)
@@ -79,6 +80,13 @@ def run(ctx):
             allf.append(pf)
             owner.append(i)
             label.append(lab)
+    # the committed collision pairs (corpus/collisions.txt) are part of what is explored — as they are, not perturbed (the same
+    # perturbation applied to both members collides again: the same finding, not a new one)
+    for a_, b_ in P.collision_pairs():
+        for x in (a_, b_):
+            allf.append(x)
+            owner.append(len(fens) + len(allf))
+            label.append("base")
     rc, so, se = C.driver(["fen"], "\n".join(allf) + "\n", timeout=900)
     keys = []
     for l in so.splitlines():
@@ -125,12 +133,20 @@ def run(ctx):
     # exploration (supports, is not an obligation): distinct identities vs distinct keys
     ident = {}
     coll = 0
+    known = res.setdefault("known", [])
     for f, k in zip(allf, keys):
         idf = " ".join(f.split()[:4])
         idf = idf if idf.split()[3] == "-" else idf[:-1]    # the key only hashes the ep FILE
         if k is None:
             continue
         if k in ident and ident[k] != idf:
+            # a listed finding (known_findings.json, matched by the specific pair) is printed as KNOWN-FINDING; any other is a violation
+            kf = [x for x in C.known_findings() if x.get("property") == prop and
+                  {" ".join(x["a"].split()[:4]), " ".join(x["b"].split()[:4])} == {ident[k], idf}]
+            if kf:
+                if kf[0]["text"] not in known:
+                    known.append(kf[0]["text"])
+                continue
             coll += 1
             if coll <= 2:
                 rp = C.write_replay(prop, {"kind": "two different explored positions share a key", "a": ident[k], "b": idf, "key": k})
@@ -139,6 +155,7 @@ def run(ctx):
     cov["perturbed_positions"] = len(allf)
     cov["distinct_identities_explored"] = len(set(ident.values()))
     cov["key_collisions_among_explored"] = coll
+    cov["known_collision_pairs_still_colliding"] = len(known)
     cov["model_keys_compared"] = len(sample)
     cov["evaluations"] = cov.get("evaluations", 0) + len(allf)
     cov["rule"] = (cov.get("rule", "") + " | perturbation sweep: positions (corpus, bench, walk positions) x {side to move, each castling "
